@@ -7,4 +7,13 @@ mkdir -p .build
 [ -f harness/Cargo.lock ] || cp /repo/Cargo.lock harness/Cargo.lock
 (cd harness && cargo build --release --offline)
 (cd /repo && cargo build --release --offline --bin incan)
+gcc -shared -fPIC -O2 -o .build/libverifrand.so shim/getrandom.c -ldl
+# warm the 16 per-worker cargo target directories used by the checks that run real `incan build`
+python3 -c "
+import sys
+sys.path.insert(0, '.')
+from pspace import pipe
+pipe.warm()
+print('pipe workers warm')
+"
 echo "setup ok"
